@@ -610,6 +610,128 @@ func (w *world) doRmVol(v int64, force bool) {
 	w.line(fmt.Sprintf("rmvol v=%d force=%d", v, b2i(force)), "res="+res)
 }
 
+func (w *world) snapshotDB() {
+	snap := filepath.Join(w.dir, "snap")
+	os.RemoveAll(snap)
+	w.fatal(os.MkdirAll(snap, 0o700))
+	for _, sfx := range dbSuffixes {
+		if _, err := os.Stat(w.dbPath() + sfx); err == nil {
+			w.fatal(copyFile(w.dbPath()+sfx, filepath.Join(snap, "db"+sfx)))
+		}
+	}
+}
+
+func (w *world) restoreDB() {
+	snap := filepath.Join(w.dir, "snap")
+	for _, sfx := range dbSuffixes {
+		os.Remove(w.dbPath() + sfx)
+		if _, err := os.Stat(filepath.Join(snap, "db"+sfx)); err == nil {
+			w.fatal(copyFile(filepath.Join(snap, "db"+sfx), w.dbPath()+sfx))
+		}
+	}
+}
+
+// interrupt runs one of the store's batched loops and steps in when its k-th transaction has committed
+// (the loops pause 50-75 ms between transactions): mode "crash" = the process dies there (the database
+// files are copied at that instant and put back once the loop has returned), "cancel" = the context is
+// cancelled, "during" = another store call is made in the pause. Store only (meta mode).
+func (w *world) interrupt(k int, mode string, op func(ctx context.Context) error, during func()) (res string, cut bool) {
+	last, _ := w.store.VerifVolProbe()
+	ctx, cancel := context.WithCancel(context.Background())
+	defer cancel()
+	done := make(chan string, 1)
+	go func() { done <- try(func() error { return op(ctx) }) }()
+	seen := 0
+	for !cut {
+		select {
+		case res = <-done:
+			return res, false
+		default:
+		}
+		if p, err := w.store.VerifVolProbe(); err == nil && p != last {
+			last = p
+			seen++
+			if seen >= k {
+				cut = true
+				switch mode {
+				case "crash":
+					w.snapshotDB()
+				case "cancel":
+					cancel()
+				default:
+					during()
+				}
+			}
+		}
+		time.Sleep(200 * time.Microsecond)
+	}
+	res = <-done
+	if mode == "crash" || mode == "crashhook" {
+		w.store.Close()
+		w.restoreDB()
+		w.open()
+		res = "crash"
+	}
+	return res, true
+}
+
+func (w *world) rowsOf(v int64) string {
+	idx, err := w.store.VerifVolIndexes(v)
+	w.fatal(err)
+	return vhlib.FmtList(idx)
+}
+
+// doRmVolCut: RemoveVolume dies after its k-th batch.
+func (w *world) doRmVolCut(v int64, force bool, k int) {
+	res, _ := w.interrupt(k, "crash", func(context.Context) error { return w.store.RemoveVolume(v, force) }, nil)
+	w.line(fmt.Sprintf("rmvol v=%d force=%d cut=%d", v, b2i(force), k), fmt.Sprintf("res=%s rows=%s", res, w.rowsOf(v)))
+}
+
+// doRmVolStore: a StoreSector lands in the pause after the first batch of RemoveVolume.
+func (w *world) doRmVolStore(v int64, force bool, r int) {
+	var loc *storage.SectorLocation
+	sres := "none"
+	res, _ := w.interrupt(1, "during", func(context.Context) error { return w.store.RemoveVolume(v, force) }, func() {
+		err := w.store.StoreSector(w.root(r), func(l storage.SectorLocation) error { loc = &l; return nil })
+		sres = classErr(err)
+		if err == nil {
+			sres = "exist"
+			if loc != nil {
+				sres = "placed"
+			}
+		}
+	})
+	w.line(fmt.Sprintf("rmvol v=%d force=%d store=%d", v, b2i(force), r), fmt.Sprintf("res=%s rows=%s sres=%s sloc=%s", res, w.rowsOf(v), sres, fmtLoc(loc)))
+}
+
+func (w *world) doExpireCut(which string, h uint64, k int) {
+	res, _ := w.interrupt(k, "crash", func(context.Context) error {
+		switch which {
+		case "expire1":
+			return w.store.ExpireContractSectors(h)
+		case "expire2":
+			return w.store.ExpireV2ContractSectors(h)
+		default:
+			return w.store.ExpireTempSectors(h)
+		}
+	}, nil)
+	w.line(fmt.Sprintf("%s h=%d cut=%d", which, h, k), "res="+res)
+}
+
+func (w *world) doPruneCut(k int, mode string) {
+	res, cut := w.interrupt(k, mode, func(ctx context.Context) error {
+		return w.store.PruneSectors(ctx, time.Now().Add(-ageStep/2*time.Second))
+	}, nil)
+	if cut && mode == "cancel" {
+		res = "cancelled"
+	}
+	arg := "cut"
+	if mode == "cancel" {
+		arg = "cancel"
+	}
+	w.line(fmt.Sprintf("prune %s=%d", arg, k), "res="+res)
+}
+
 // ---------------------------------------------------------------- contracts
 
 func (w *world) doAddC1(c int, wend, neg uint64) {
@@ -910,6 +1032,37 @@ func (w *world) doStore(r int, fail bool) {
 	}
 	w.tr.Count("store:" + strings.SplitN(res, ":", 2)[0])
 	w.line(fmt.Sprintf("store r=%d fail=%d", r, b2i(fail)), fmt.Sprintf("res=%s loc=%s", res, fmtLoc(loc)))
+}
+
+func (w *world) doMigrateCut(v int64, start uint64, k int) {
+	var mu sync.Mutex
+	var moves []move
+	snapMoves := -1
+	res, _ := w.interruptMig(k, func(ctx context.Context) error {
+		_, _, err := w.store.MigrateSectors(ctx, v, start, func(from, to storage.SectorLocation) error {
+			mu.Lock()
+			moves = append(moves, move{from.Index, to.Volume, to.Index, 0, true})
+			mu.Unlock()
+			return nil
+		})
+		return err
+	}, func() {
+		mu.Lock()
+		snapMoves = len(moves)
+		mu.Unlock()
+	})
+	mu.Lock()
+	if snapMoves >= 0 && snapMoves < len(moves) {
+		moves = moves[:snapMoves]
+	}
+	mu.Unlock()
+	w.line(fmt.Sprintf("migrate v=%d start=%d inj=[] cut=%d", v, start, k),
+		fmt.Sprintf("res=%s migrated=%d failed=0 moves=%s", res, len(moves), fmtMoves(moves)))
+}
+
+// interruptMig is interrupt(…, "crash", …) with a hook at the instant of the snapshot.
+func (w *world) interruptMig(k int, op func(ctx context.Context) error, atSnap func()) (string, bool) {
+	return w.interrupt(k, "crashhook", op, func() { atSnap(); w.snapshotDB() })
 }
 
 func (w *world) doMigrate(v int64, start uint64, inj []int) {
